@@ -67,6 +67,7 @@ type LabCase struct {
 	Sort      bool
 	SkipNodes map[string]string // test -> wrapper (applied in the judged run only)
 	SkipAt    map[string]int
+	SkipAfter map[string]bool // test -> its skip wrapper is called after its sub-tests were started
 	Classes   vkit.Classes
 	// judged-run mutations (C20): test -> call index -> changed value / Update option
 	MutVal map[string]map[int]string
@@ -242,6 +243,28 @@ func (l *Lab) Gen(r *rand.Rand, o LabOpts) *LabCase {
 			}
 		}
 	}
+	if o.Skips && r.IntN(4) == 0 {
+		// a parent that calls a snaps skip wrapper AFTER starting its sub-tests, one of which skips too
+		// (sequentially, or as a paused t.Parallel sub-test that runs once the parent returned)
+		var cands []string
+		for _, n := range names {
+			if len(lc.Scenario.Nodes[n].Subs) > 0 && lc.SkipNodes[n] == "" {
+				cands = append(cands, n)
+			}
+		}
+		if len(cands) > 0 {
+			p := cands[r.IntN(len(cands))]
+			child := p + "/" + tName(lc.Scenario.Nodes[p].Subs[0])
+			lc.SkipNodes[p] = []string{"Skip", "Skipf", "SkipNow"}[r.IntN(3)]
+			lc.SkipAfter = map[string]bool{p: true}
+			lc.SkipNodes[child] = []string{"Skip", "Skipf", "SkipNow"}[r.IntN(3)]
+			delete(lc.SkipAt, child)
+			if r.IntN(2) == 0 {
+				lc.Scenario.Nodes[child].Parallel = true
+			}
+			lc.Classes["parent-skips-after-its-subtests"] = true
+		}
+	}
 	if o.RunFilter && r.IntN(2) == 0 {
 		lc.Run = l.runPattern(r, names)
 		lc.Classes["run-filter"] = true
@@ -305,6 +328,7 @@ func (lc *LabCase) withSkips() *Scenario {
 		if w, ok := lc.SkipNodes[k]; ok {
 			c.Skip = w
 			c.SkipAt = lc.SkipAt[k]
+			c.SkipAfterSubs = lc.SkipAfter[k]
 		}
 		if lc.MutVal[k] != nil || lc.MutUpd[k] != nil {
 			c.Calls = append([]Call(nil), n.Calls...)
